@@ -31,8 +31,6 @@ import tempfile
 import time
 import uuid
 
-import numpy as np
-
 from vlib import paths
 from vlib import c19_kernels as K
 from vlib.runner import result, HELD, VIOL, SKIP, INCO
@@ -208,13 +206,12 @@ E2E = ["splines", "flux", "vpar", "poloidal"]
 
 
 def gen_cases(tier, seed):
-    st = _status() or {"builds": {}}
     rng = random.Random("C19/%s/%d" % (tier, seed))
     cases = []
     langs = ["fortran"] + (["c"] if tier == "thorough" else [])
     for name in langs + ["san"]:
         cases.append({"kind": "build", "build": name, "cost": 0.1})
-    reps = {"quick": 3, "thorough": 6}[tier]
+    reps = {"quick": 4, "thorough": 12}[tier]
     col = 2 if tier == "quick" else 3
     for lang in langs:
         for fam, (mod, _g, nq, nt, cost) in K.FAMILIES.items():
@@ -222,16 +219,16 @@ def gen_cases(tier, seed):
                 cases.append({"kind": "diff", "lang": lang, "family": fam, "n": K.FAMILIES[fam][col], "seed": rng.randrange(1 << 30),
                               "cost": cost * K.FAMILIES[fam][col]})
     for fam, (mod, _g, nq, nt, cost) in K.FAMILIES.items():
-        for _ in range(1 if tier == "quick" else 3):
+        for _ in range(1 if tier == "quick" else 6):
             cases.append({"kind": "san", "family": fam, "n": K.FAMILIES[fam][col], "seed": rng.randrange(1 << 30),
                           "cost": 2 + cost * K.FAMILIES[fam][col]})
     for w in E2E:
-        for _ in range(1 if tier == "quick" else 2):
+        for _ in range(1 if tier == "quick" else 4):
             cases.append({"kind": "san-e2e", "workload": w, "seed": rng.randrange(1 << 30), "cost": 30})
     for flavour, units in COPY_FLAVOURS.items():
         for mod in units:
             for fam in K.FAMILIES_OF_MODULE[mod]:
-                for _ in range(1 if tier == "quick" else 2):
+                for _ in range(1 if tier == "quick" else 4):
                     cases.append({"kind": "copy", "flavour": flavour, "module": mod, "family": fam, "n": K.FAMILIES[fam][col],
                                   "seed": rng.randrange(1 << 30), "cost": 2 * K.FAMILIES[fam][4] * K.FAMILIES[fam][col]})
     return cases
@@ -459,7 +456,6 @@ def _compare_streams(calls, ref, alts, got_done, events, masked_counter=True):
     """-> list of (index, verdict, detail) for calls that disagree; counts comparisons"""
     bad = []
     ncmp = 0
-    both = 0
     for i, call in enumerate(calls):
         if i not in got_done:
             continue
@@ -476,12 +472,11 @@ def _compare_streams(calls, ref, alts, got_done, events, masked_counter=True):
                     events["matched_alternative_iteration_count"] = events.get("matched_alternative_iteration_count", 0) + 1
                     break
         if verdict == "both-raise":
-            both += 1
             bad.append((i, "both-raise", detail))
             continue
         ncmp += 1
         if call.get("guard") and ref[i]["exc"] is None:
-            m1, m2 = K.poloidal_masks(call, ref[i])
+            _m1, m2 = K.poloidal_masks(call, ref[i])
             events["branch_ambiguous_entries"] = events.get("branch_ambiguous_entries", 0) + int(m2.sum())
         if verdict != "ok":
             bad.append((i, verdict, detail))
